@@ -61,6 +61,11 @@ pub struct Script {
     pub client_path: String,
     #[serde(default)]
     pub read_cap: usize,
+    /// extra silence (ms) after about half of the `Gap` acts (which ones: a hash of the seed and
+    /// the gap's index), so that pieces of one frame or preamble also arrive hundreds of
+    /// milliseconds or seconds apart - anything timer-driven in the endpoint fires in between
+    #[serde(default)]
+    pub long_gap_ms: u64,
     /// per-mille of the raw peer's HTTP/3 varints written in a non-shortest (legal) form
     #[serde(default)]
     pub stretch_pm: u32,
@@ -263,6 +268,7 @@ pub fn run_script(script: &Script, trace: bool, prefix: &str) -> (Exec, Option<O
         let mut slots: BTreeMap<usize, Slot> = BTreeMap::new();
         let mut raw_session_id = None;
         let mut fired: BTreeMap<&'static str, u64> = BTreeMap::new();
+        let mut gap_idx = 0u64;
         for act in &sc.acts {
             let kind = match act {
                 Act::Gap => Some("delivery_boundary_forced"),
@@ -340,6 +346,11 @@ pub fn run_script(script: &Script, trace: bool, prefix: &str) -> (Exec, Option<O
                 }
                 Act::Gap => {
                     net.quiesce(gap, Duration::from_secs(5)).await;
+                    gap_idx += 1;
+                    if sc.long_gap_ms > 0 && crate::rng::mix(&[sc.seed, 0x6761_70, gap_idx]) & 1 == 1 {
+                        tokio::time::sleep(Duration::from_millis(sc.long_gap_ms)).await;
+                        *fired.entry("long_silence_inside_element").or_insert(0) += 1;
+                    }
                 }
                 Act::Sleep { us } => tokio::time::sleep(Duration::from_micros(*us)).await,
                 Act::CloseConn { code, reason_hex } => {
@@ -447,7 +458,7 @@ pub fn run_script(script: &Script, trace: bool, prefix: &str) -> (Exec, Option<O
             (ex, None)
         }
         Some(Ok((obs, fired))) => {
-            for k in ["delivery_boundary_forced", "peer_stream_reset", "peer_connection_close", "app_calls_cancelled_and_reissued", "peer_delay"] {
+            for k in ["delivery_boundary_forced", "long_silence_inside_element", "peer_stream_reset", "peer_connection_close", "app_calls_cancelled_and_reissued", "peer_delay"] {
                 ex.fault(k, fired.get(k).copied().unwrap_or(0));
             }
             if let Some(n) = fired.get("local_close_mid_script") {
@@ -481,6 +492,7 @@ pub fn base_script(seed: u64, server_under_test: bool) -> Script {
         client_path: "/script".into(),
         read_cap: 0,
         stretch_pm: if rng.chance_pm(300) { 350 } else { 0 },
+        long_gap_ms: if rng.chance_pm(250) { *rng.pick(&[20u64, 600, 1_500, 4_000]) } else { 0 },
     }
 }
 
